@@ -236,7 +236,7 @@ var (
 	poolIdx   = []string{"-3", "-2", "-1", "0", "1", "2", "3"}
 	poolSR    = []string{"-inf", "+inf", "0", "1", "2", "(0", "(1", "3"}
 	poolLex   = []string{"-", "+", "[a", "(a", "[m", "(m", "[b"}
-	poolDur   = []string{"1", "1", "2", "3", "100000000"}
+	poolDur   = []string{"1", "1", "2", "3", "1000000"} // the longest TTL (11 days) never reaches across the 3-year distance to the wall clock
 	poolJPath = []string{"", "a", "b", "a.b", "arr", "arr.0"}
 	poolJVal  = []string{`1`, `"s"`, `{"a":1}`, `{"a":{"b":2},"arr":[1,2]}`, `[1,2,3]`, `[]`, `null`, `{bad`}
 	poolBit   = []string{"0", "1", "7", "8", "9", "8191", "8192", "65536"}
@@ -507,12 +507,12 @@ func (g *gen) writeCmd() []string {
 			return []string{"lmclear", k, g.key()}
 		}
 	case 'b':
-		switch g.r.Intn(6) {
-		case 0, 1, 2:
+		switch g.r.Intn(12) {
+		case 0, 1, 2, 3, 4, 5, 6:
 			return []string{"setbitv2", k, g.pick(poolBit), g.pick([]string{"0", "1", "1"})}
-		case 3:
+		case 7, 8:
 			return []string{"bitclear", k}
-		case 4:
+		case 9:
 			return []string{"bexpire", k, g.pick(poolDur)}
 		default:
 			return []string{"bpersist", k}
